@@ -34,17 +34,19 @@ ASSUMPTIONS = [
 WS = ' \t\n\r\x0b\x0c'
 
 
-def strip_env_name_padding(src):
-    """`\\begin{ name }` -> `\\begin{name}` (and the same for \\end): what
-    TexExpr.__init__'s name.strip() does to the serialised text.  The name
-    group is located with the library's own tokenizer (brace matching on
-    tokens, so comments and escaped braces are respected); an unclosed name
-    group extends to the end of the input."""
+def name_padding_edits(src):
+    """Candidate edits `(start, end, stripped)`: the contents of a brace group
+    directly following \\begin / \\end (optional spacer allowed) whose text has
+    leading or trailing whitespace - what TexExpr.__init__'s name.strip() would
+    drop IF the parser took that group as an environment name.  The group is
+    located with the library's own tokenizer (brace matching on tokens, so
+    comments and escaped braces are respected); an unclosed group extends to
+    the end of the input."""
     import impl
     try:
         toks = impl.tokens_of(src)
     except Exception:      # noqa
-        return src
+        return []
     edits, i, covered = [], 0, -1
     while i < len(toks) - 1:
         if toks[i][2] == 'Escape' and toks[i + 1][0] in ('begin', 'end') and toks[i][1] >= covered:
@@ -66,24 +68,34 @@ def strip_env_name_padding(src):
                     edits.append((start, end, content.strip()))
                     covered = end
         i += 1
-    for start, end, rep in reversed(edits):
+    return edits
+
+
+def apply_edits(src, edits):
+    for start, end, rep in sorted(edits, reverse=True):
         src = src[:start] + rep + src[end:]
     return src
 
 
+def strip_env_name_padding(src):
+    return apply_edits(src, name_padding_edits(src))
+
+
 def cls_env_name_padding(f):
-    """C07/C08/C01/C16: the only unexplained difference is whitespace padding
-    inside the braces of a \\begin/\\end name."""
+    """C07/C08: the only unexplained difference is whitespace padding inside
+    the braces of some \\begin/\\end name groups (those the parser really took
+    as environment names: every subset of the candidate groups is tried, since
+    a `\\end{` inside a verbatim body or a \\newcommand is not a name)."""
+    import itertools
     src = f.inp if isinstance(f.inp, str) else None
-    if src is None:
+    out = f.observed if isinstance(f.observed, str) else None
+    if src is None or out is None:
         return False
-    norm = strip_env_name_padding(src)
-    if norm == src:
+    edits = name_padding_edits(src)
+    if not edits:
         return False
     import oracles_parse as op
-    out = f.observed if isinstance(f.observed, str) else None
-    if out is None:
-        return False
+    names = set()
     if f.kind == 'tolerant-output-not-input-plus-closers':
         names = set(re.findall(r'\\begin\{([^{}]*)\}', out))
         try:
@@ -91,11 +103,19 @@ def cls_env_name_padding(f):
             names |= op.env_names(impl.parse(src, 1))
         except Exception:     # noqa
             pass
-        return op.only_closers_inserted(norm, out, names) is None
-    if f.kind in ('characters-not-conserved',):
-        return op.removed_arg_space_alignment(norm, out) is None
-    if f.kind in ('roundtrip',):
-        return norm == out
+    edits = edits[:8]
+    for r in range(len(edits), 0, -1):
+        for sub in itertools.combinations(edits, r):
+            norm = apply_edits(src, list(sub))
+            if f.kind == 'tolerant-output-not-input-plus-closers':
+                if op.only_closers_inserted(norm, out, names) is None:
+                    return True
+            elif f.kind == 'characters-not-conserved':
+                if op.removed_arg_space_alignment(norm, out) is None:
+                    return True
+            elif f.kind == 'roundtrip':
+                if norm == out:
+                    return True
     return False
 
 
